@@ -44,3 +44,26 @@ func cacheDeletes() int { return verif_ghost_int("cacheDeletes") }
 //@ func deserializeCompiledModule(wazeroVersion string, reader io.ReadCloser) (cm *compiledModule, staleCache bool, err error)
 //@   requires reader != nil
 //@   sweep
+
+// ---- C14 / C02: what compiled code sees of the linear memory. Machine code reads the buffer length as
+// a 64-bit word of the module context (offset LocalMemoryBegin+8); every growth republishes it.
+func opaqueLE64(b []byte, at int) uint64 {
+	return uint64(b[at]) | uint64(b[at+1])<<8 | uint64(b[at+2])<<16 | uint64(b[at+3])<<24 |
+		uint64(b[at+4])<<32 | uint64(b[at+5])<<40 | uint64(b[at+6])<<48 | uint64(b[at+7])<<56
+}
+
+func localMemOff(m *moduleEngine) int { return int(m.parent.offsets.LocalMemoryBegin) }
+
+//@ prop C14 C02
+//@ func (m *moduleEngine) putLocalMemory()
+//@   requires m.module != nil && m.module.MemoryInstance != nil && m.parent != nil && localMemOff(m) >= 0 && localMemOff(m) < 1<<30 && localMemOff(m)+16 <= len(m.opaque)
+//@   requires !verif_same_array(m.opaque, m.module.MemoryInstance.Buffer)
+//@   ensures[length-published-as-64-bits] opaqueLE64(m.opaque, localMemOff(m)+8) == uint64(len(m.module.MemoryInstance.Buffer))
+//@   ensures[only-the-memory-words] len(m.opaque) == old(len(m.opaque)) && forall i int :: 0 <= i && i < len(m.opaque) && (i < localMemOff(m) || i >= localMemOff(m)+16) ==> m.opaque[i] == old[byte](m.opaque[i])
+//@   modifies elems(m.opaque)
+
+//@ func (m *moduleEngine) MemoryGrown()
+//@   requires m.module != nil && m.module.MemoryInstance != nil && m.parent != nil && localMemOff(m) >= 0 && localMemOff(m) < 1<<30 && localMemOff(m)+16 <= len(m.opaque)
+//@   requires !verif_same_array(m.opaque, m.module.MemoryInstance.Buffer)
+//@   ensures[length-published-as-64-bits] opaqueLE64(m.opaque, localMemOff(m)+8) == uint64(len(m.module.MemoryInstance.Buffer))
+//@   modifies elems(m.opaque)
